@@ -334,8 +334,109 @@ type distCase struct {
 	Cpus int      `json:"cpus"`
 }
 
+// distRelations runs one family of equivalent presentations of the same data (C08) and emits the relation events
+func distRelations(env *Env, rng *rand.Rand, id string, rows [][]int, o distOpts, base distEvent, cpus int, which int) {
+	noRange := []int{-1, -1, -1, -1}
+	L := len(rows[0])
+	emitRel := func(rel, what string, k int, perm []int, rows2 [][]int, o2 distOpts, cp int) {
+		ev2 := distCall(rows2, o2, noRange, cp)
+		ev2.ID = id + ":" + what
+		env.Emit(ev2)
+		if ev2.Kind == "ok" {
+			env.Emit(relEvent{T: "rel", ID: id, Rel: rel, What: what, K: k, Perm: perm, M1: base.M, M2: ev2.M, Rows: rows, O: o})
+		}
+	}
+	switch which {
+	case 0: // thread counts: bit-identical
+		for _, cp := range []int{1, 2, 3, 8, 16, 32} {
+			emitRel("same", fmt.Sprintf("threads=%d", cp), 1, identityPerm(len(rows)), rows, o, cp)
+		}
+	case 1: // column permutation (not for the internal-gap mode, which depends on column order by definition)
+		if (o.Model == "pdist" || o.Model == "rawdist") && o.GapMode == 1 {
+			break
+		}
+		p := rng.Perm(L)
+		rows2 := make([][]int, len(rows))
+		for k2 := range rows {
+			rows2[k2] = make([]int, L)
+			for c := range p {
+				rows2[k2][c] = rows[k2][p[c]]
+			}
+		}
+		o2 := o
+		if len(o.Wts) > 0 {
+			o2.Wts = make([]int, L)
+			for c := range p {
+				o2.Wts[c] = o.Wts[p[c]]
+			}
+		}
+		emitRel("close", "colperm", 1, identityPerm(len(rows)), rows2, o2, cpus)
+	case 2: // replication k times == integer weight k; raw distances scale with k
+		if (o.Model == "pdist" || o.Model == "rawdist") && o.GapMode == 1 || len(o.Wts) > 0 {
+			break
+		}
+		k := 2 + rng.Intn(2)
+		rows2 := make([][]int, len(rows))
+		for k2 := range rows {
+			for c := 0; c < L; c++ {
+				for x := 0; x < k; x++ {
+					rows2[k2] = append(rows2[k2], rows[k2][c])
+				}
+			}
+		}
+		scale := 1
+		if o.Model == "rawdist" {
+			scale = k
+		}
+		emitRel("close", fmt.Sprintf("replicate=%d", k), scale, identityPerm(len(rows)), rows2, o, cpus)
+		o3 := o
+		o3.Wts = make([]int, L)
+		for c := range o3.Wts {
+			o3.Wts[c] = 4 * k
+		}
+		emitRel("close", fmt.Sprintf("weight=%d", k), scale, identityPerm(len(rows)), rows, o3, cpus)
+	case 3: // explicit unit weights
+		if len(o.Wts) > 0 {
+			break
+		}
+		o2 := o
+		o2.Wts = make([]int, L)
+		for c := range o2.Wts {
+			o2.Wts[c] = 4
+		}
+		emitRel("close", "unitweights", 1, identityPerm(len(rows)), rows, o2, cpus)
+	case 4: // reverse complement of the whole alignment
+		if (o.Model == "pdist" || o.Model == "rawdist") && o.GapMode == 1 {
+			// reversing the columns maps leading runs to trailing ones: the internal region is the same set of sites
+		}
+		rc := revcompRows(rows)
+		if rc == nil {
+			break
+		}
+		o2 := o
+		if len(o.Wts) > 0 {
+			o2.Wts = make([]int, L)
+			for c := range o.Wts {
+				o2.Wts[c] = o.Wts[L-1-c]
+			}
+		}
+		emitRel("close", "revcomp", 1, identityPerm(len(rows)), rc, o2, cpus)
+	case 5: // row permutation
+		p := rng.Perm(len(rows))
+		rows2 := make([][]int, len(rows))
+		perm := make([]int, len(rows))
+		for k2 := range p {
+			rows2[k2] = rows[p[k2]]
+			perm[k2] = p[k2] + 1
+		}
+		emitRel("close", "rowperm", 1, perm, rows2, o, cpus)
+	}
+}
+
 func distFamily(env *Env) error {
 	ng := 0
+	relCases := strings.Contains(env.Extra, "rel=1") // the relations of C08 on the generated cases too
+	relRng := rand.New(rand.NewSource(env.Seed + 77))
 	if err := env.Cases(func(line []byte) error {
 		var c distCase
 		if err := json.Unmarshal(line, &c); err != nil {
@@ -354,6 +455,21 @@ func distFamily(env *Env) error {
 			if ce, ok := distCli(c.Rows, c.O, c.R, c.Cpus); ok {
 				ce.ID = ev.ID + ":cli"
 				env.Emit(ce)
+			}
+		}
+		if relCases && ev.Kind == "ok" && (len(c.R) == 0 || c.R[0] < 0) && len(c.Rows) > 0 && len(c.Rows[0]) > 0 {
+			ws := []int{ng % 6, 5} // one relation in turn, and always the row permutation
+			if (c.O.Model == "pdist" || c.O.Model == "rawdist") && c.O.GapMode == 2 {
+				// every gap counted: unlike the internal-gap mode this one does not depend on column order
+				ws = []int{ng % 6, 5, 1, 2, 4}
+			}
+			seenW := map[int]bool{}
+			for _, w := range ws {
+				if seenW[w] {
+					continue
+				}
+				seenW[w] = true
+				distRelations(env, relRng, fmt.Sprintf("g%d.%d", ng, w), c.Rows, c.O, ev, c.Cpus, w)
 			}
 		}
 		ng++
@@ -389,99 +505,7 @@ func distFamily(env *Env) error {
 		if base.Kind != "ok" || r[0] >= 0 {
 			continue
 		}
-		emitRel := func(rel, what string, k int, perm []int, rows2 [][]int, o2 distOpts, cp int) {
-			ev2 := distCall(rows2, o2, noRange, cp)
-			ev2.ID = id + ":" + what
-			env.Emit(ev2)
-			if ev2.Kind == "ok" {
-				env.Emit(relEvent{T: "rel", ID: id, Rel: rel, What: what, K: k, Perm: perm, M1: base.M, M2: ev2.M, Rows: rows, O: o})
-			}
-		}
-		switch rng.Intn(6) {
-		case 0: // thread counts: bit-identical
-			for _, cp := range []int{1, 2, 3, 8, 16, 32} {
-				emitRel("same", fmt.Sprintf("threads=%d", cp), 1, identityPerm(len(rows)), rows, o, cp)
-			}
-		case 1: // column permutation (not for the internal-gap mode, which depends on column order by definition)
-			if (o.Model == "pdist" || o.Model == "rawdist") && o.GapMode == 1 {
-				break
-			}
-			p := rng.Perm(L)
-			rows2 := make([][]int, len(rows))
-			for k2 := range rows {
-				rows2[k2] = make([]int, L)
-				for c := range p {
-					rows2[k2][c] = rows[k2][p[c]]
-				}
-			}
-			o2 := o
-			if len(o.Wts) > 0 {
-				o2.Wts = make([]int, L)
-				for c := range p {
-					o2.Wts[c] = o.Wts[p[c]]
-				}
-			}
-			emitRel("close", "colperm", 1, identityPerm(len(rows)), rows2, o2, cpus)
-		case 2: // replication k times == integer weight k; raw distances scale with k
-			if (o.Model == "pdist" || o.Model == "rawdist") && o.GapMode == 1 || len(o.Wts) > 0 {
-				break
-			}
-			k := 2 + rng.Intn(2)
-			rows2 := make([][]int, len(rows))
-			for k2 := range rows {
-				for c := 0; c < L; c++ {
-					for x := 0; x < k; x++ {
-						rows2[k2] = append(rows2[k2], rows[k2][c])
-					}
-				}
-			}
-			scale := 1
-			if o.Model == "rawdist" {
-				scale = k
-			}
-			emitRel("close", fmt.Sprintf("replicate=%d", k), scale, identityPerm(len(rows)), rows2, o, cpus)
-			o3 := o
-			o3.Wts = make([]int, L)
-			for c := range o3.Wts {
-				o3.Wts[c] = 4 * k
-			}
-			emitRel("close", fmt.Sprintf("weight=%d", k), scale, identityPerm(len(rows)), rows, o3, cpus)
-		case 3: // explicit unit weights
-			if len(o.Wts) > 0 {
-				break
-			}
-			o2 := o
-			o2.Wts = make([]int, L)
-			for c := range o2.Wts {
-				o2.Wts[c] = 4
-			}
-			emitRel("close", "unitweights", 1, identityPerm(len(rows)), rows, o2, cpus)
-		case 4: // reverse complement of the whole alignment
-			if (o.Model == "pdist" || o.Model == "rawdist") && o.GapMode == 1 {
-				// reversing the columns maps leading runs to trailing ones: the internal region is the same set of sites
-			}
-			rc := revcompRows(rows)
-			if rc == nil {
-				break
-			}
-			o2 := o
-			if len(o.Wts) > 0 {
-				o2.Wts = make([]int, L)
-				for c := range o.Wts {
-					o2.Wts[c] = o.Wts[L-1-c]
-				}
-			}
-			emitRel("close", "revcomp", 1, identityPerm(len(rows)), rc, o2, cpus)
-		case 5: // row permutation
-			p := rng.Perm(len(rows))
-			rows2 := make([][]int, len(rows))
-			perm := make([]int, len(rows))
-			for k2 := range p {
-				rows2[k2] = rows[p[k2]]
-				perm[k2] = p[k2] + 1
-			}
-			emitRel("close", "rowperm", 1, perm, rows2, o, cpus)
-		}
+		distRelations(env, rng, id, rows, o, base, cpus, rng.Intn(6))
 	}
 	return nil
 }
